@@ -437,9 +437,9 @@ Print Assumptions C09_v2v_rounded_agrees_with_physical_route.
            indices fit the output type - and only then; for unsigned / floating inputs the output type is int64,
            so negative indices are returned unchanged;
        (c) hence it agrees with the route through physical space for EVERY input dtype;
-       (d) unrounded: dtype independent for signed integer and floating inputs (rounding to float32 is an oracle
-           premise); REFUTED for unsigned inputs - the code casts the float result to the unsigned input type
-           (reported defect): a point 1.5 voxels before the target comes back as 255 and passes check_bounds *)
+       (d) unrounded: dtype independent for signed, unsigned (fix D112: the code used to cast the float result to
+           the unsigned input type - a point 1.5 voxels before the target came back as 255 and passed check_bounds)
+           and floating inputs (rounding to float32 is an oracle premise), hence agrees with the physical route *)
 Theorem C09_astype_signed_id_iff : forall w z, wrap_s w z = z <-> smin w <= z <= smax w.
 Proof. exact wrap_s_id_iff. Qed.
 Print Assumptions C09_astype_signed_id_iff.
@@ -462,7 +462,7 @@ Theorem C09_v2v_dtype_nonint_rounded : forall dt A B shape check pts, input_is_i
 Proof. exact v2v_dt_nonint_rounded. Qed.
 Print Assumptions C09_v2v_dtype_nonint_rounded.
 
-Theorem C09_v2v_dtype_unrounded_exact : forall dt A B shape check pts, (forall w, dt <> DUInt w) ->
+Theorem C09_v2v_dtype_unrounded_exact : forall dt A B shape check pts,
   v2v_dt dt A B shape false check pts = v2v A B shape false check pts.
 Proof. exact v2v_dt_unrounded_exact. Qed.
 Print Assumptions C09_v2v_dtype_unrounded_exact.
@@ -476,19 +476,22 @@ Proof. exact v2v_dt_rounded_agrees_with_physical_route. Qed.
 Print Assumptions C09_v2v_dtype_rounded_agrees_with_physical_route.
 
 Theorem C09_v2v_dtype_unrounded_agrees_with_physical_route : forall dt A B shape check pts, ~ (det B == 0)%Q ->
-  (forall w, dt <> DUInt w) ->
-  agree (v2v_dt dt A B shape false check pts) (ref2idx B shape false check (idx2ref A pts)).
+  agree (v2v_dt dt A B shape false check pts) (ref2idx B shape false check (idx2ref A pts)) /\
+  (forall e, v2v_dt dt A B shape false check pts = Err e -> e = VE /\ check = true) /\
+  (forall e, ref2idx B shape false check (idx2ref A pts) = Err e ->
+             check = true /\ (e = RT \/ pts = [] /\ e = VE)).
 Proof. exact v2v_dt_unrounded_agrees_with_physical_route. Qed.
 Print Assumptions C09_v2v_dtype_unrounded_agrees_with_physical_route.
 
-Theorem C09_v2v_dtype_unsigned_unrounded_refuted :
+(* the witness of fixed defect D112 is now refused by the bounds check / returned unchanged without it *)
+Example C09_d112_unsigned_unrounded_now_exact :
   ~ (det rf_B == 0)%Q /\
-  v2v_dt (DUInt W8) rf_A rf_B (T3 300 10 10) false true [V3 1 2 3] = Ok [V3 255 2 3] /\
+  v2v_dt (DUInt W8) rf_A rf_B (T3 300 10 10) false true [V3 1 2 3] = Err VE /\
   ref2idx rf_B (T3 300 10 10) false true (idx2ref rf_A [V3 1 2 3]) = Err RT /\
-  exists l, ref2idx rf_B (T3 300 10 10) false false (idx2ref rf_A [V3 1 2 3]) = Ok l /\
+  exists l, v2v_dt (DUInt W8) rf_A rf_B (T3 300 10 10) false false [V3 1 2 3] = Ok l /\
             Forall2 veq l [V3 (- (3 # 2)) 2 3].
-Proof. exact v2v_dt_unsigned_unrounded_refuted. Qed.
-Print Assumptions C09_v2v_dtype_unsigned_unrounded_refuted.
+Proof. exact d112_unsigned_unrounded_now_exact. Qed.
+Print Assumptions C09_d112_unsigned_unrounded_now_exact.
 
 (* non-vacuity: a uint8 point lying 4 voxels before the first voxel of a permuted sub-window keeps its negative
    index (-4, not 252), the hypotheses of (b)/(c) hold, and the bounds check refuses it *)
